@@ -7,6 +7,7 @@ per-module sections and findings F-gen-1, F-gen-2, F-gen-3).
 import Irismod.Proofs.MtGenesis
 import Irismod.Props.C15
 import Irismod.Proofs.RecordGenesis
+import Irismod.Proofs.HtlcOracleGenesis
 
 namespace Irismod.Props.C12
 open Irismod
@@ -84,15 +85,35 @@ theorem mt_roundtrip_twice (s : State) (hw : WF s) (hinv : Inv s) :
   obtain ⟨s', h1, hw', hinv'⟩ := mt_import_closed s hw hinv
   exact ⟨s', h1, mt_roundtrip s' hw' hinv'⟩
 
+theorem mt_idFresh_of_B (s : State) (op : Op) (h : idFreshB s op = true) : IdFresh s op := by
+  cases op with
+  | issueDenom sender name data => simpa [idFreshB, IdFresh] using h
+  | mint sender d id recipient n data =>
+    intro hid
+    subst hid
+    simpa [idFreshB] using h
+  | edit sender d id data => trivial
+  | transfer sender recipient d id n => trivial
+  | burn sender d id n => trivial
+  | transferDenom sender recipient id => trivial
+
+theorem mt_freshRun_of_B : ∀ (ops : List Op) (s : State), freshRunB s ops = true → FreshRun s ops
+  | [], _, _ => trivial
+  | op :: t, s, h => by
+    simp only [freshRunB, Bool.and_eq_true] at h
+    exact ⟨mt_idFresh_of_B s op h.1, mt_freshRun_of_B t _ h.2⟩
+
 /-- non-vacuity: a history with two classes (one empty), two tokens, a transfer that leaves a
 zero-amount balance entry, and a burn -/
-def mtDemo : State :=
-  run {} [.issueDenom "A0" "n" "", .issueDenom "A1" "z" "aa", .mint "A0" (genId "mt-denom-" 1) "" "A1" 10 "",
+def mtDemoOps : List Op := [.issueDenom "A0" "n" "", .issueDenom "A1" "z" "aa", .mint "A0" (genId "mt-denom-" 1) "" "A1" 10 "",
           .mint "A0" (genId "mt-denom-" 1) "" "A0" 18446744073709551615 "bb",
           .transfer "A1" "A2" (genId "mt-denom-" 1) (genId "mt-" 1) 4,
           .burn "A2" (genId "mt-denom-" 1) (genId "mt-" 1) 4]
 
+def mtDemo : State := run {} mtDemoOps
+
 def mtDemoCheck : Bool :=
+  freshRunB {} mtDemoOps &&
   match validateGenesis (exportGenesis mtDemo), importGenesis (exportGenesis mtDemo) with
   | .ok _, .ok s' =>
     decide (exportGenesis s' = exportGenesis mtDemo) && (exportGenesis mtDemo).owners.length == 3 &&
@@ -198,5 +219,96 @@ theorem record_roundtrip_fails (hw : WitnessFacts) : ¬ RoundTripAll := by
   cases this
 
 end record
+
+/-! ## HTLC (finding F-gen-1: creation accepts timestamp 0, genesis validation rejects it) -/
+section htlc
+open Irismod.HtlcGenesis Irismod.Proofs.HtlcGenesis
+
+/-- the C12 statement for the HTLC timestamp/expiry rules: the export of every reachable store
+passes `ValidateGenesis`. FALSE in the code. -/
+def HtlcExportValidates : Prop :=
+  ∀ (s0 : State) (ops : List Op), s0.htlcs = [] → 900 < s0.time →
+    validateGenesis (exportGenesis (run s0 ops)) = true
+
+/-- **negation by witness**: one plain HTLC created without a timestamp (accepted by
+`CreateHTLC`: the timestamp of a non-transfer contract is never checked) -/
+theorem htlc_roundtrip_fails : ¬ HtlcExportValidates := by
+  intro H
+  have := H { time := 1700000000 } [.create "h1" 0 50 false] rfl (by decide)
+  revert this
+  decide
+
+theorem htlc_inv_init (s0 : State) (h0 : s0.htlcs = []) (hc : 900 < s0.time) : Inv s0 :=
+  ⟨by rw [h0]; simp [AMap.keys], by rw [h0]; intro e he; simp at he, by rw [h0]; intro e he; simp at he, hc⟩
+
+/-- **the true part**, excluded class explicit: if no open contract carries timestamp 0, the
+export of every reachable store validates (no duplicate id, all open, expiry ≠ 0, timestamp ≠ 0) -/
+theorem htlc_validate_partial (s0 : State) (ops : List Op) (h0 : s0.htlcs = []) (hc : 900 < s0.time)
+    (hts : ∀ e ∈ exportGenesis (run s0 ops), e.2.timestamp ≠ 0) :
+    validateGenesis (exportGenesis (run s0 ops)) = true := by
+  have hi := inv_run ops s0 (htlc_inv_init s0 h0 hc)
+  apply validateWith_ok _ _ [] (nodup_export _ hi.nodup) (by intro k _; simp)
+  intro e he
+  obtain ⟨hm, ho⟩ := mem_export he
+  refine ⟨ho, ?_⟩
+  simp only [validateContract, Bool.and_eq_true, decide_eq_true_eq]
+  exact ⟨hi.exp e hm, hts e he⟩
+
+/-- with fixes/F-gen-1.diff (timestamp rule only for HTLTs) the export of every reachable store
+validates: an HTLT's timestamp was checked against the clock at creation, so it is not 0 -/
+theorem htlc_fixed_validates (s0 : State) (ops : List Op) (h0 : s0.htlcs = []) (hc : 900 < s0.time) :
+    validateGenesisFixed (exportGenesis (run s0 ops)) = true := by
+  have hi := inv_run ops s0 (htlc_inv_init s0 h0 hc)
+  apply validateWith_ok _ _ [] (nodup_export _ hi.nodup) (by intro k _; simp)
+  intro e he
+  obtain ⟨hm, ho⟩ := mem_export he
+  refine ⟨ho, ?_⟩
+  simp only [validateContractFixed, Bool.and_eq_true, decide_eq_true_eq, Bool.or_eq_true,
+    Bool.not_eq_true']
+  refine ⟨hi.exp e hm, ?_⟩
+  cases htr : e.2.transfer with
+  | false => exact Or.inl rfl
+  | true => exact Or.inr (hi.htlt e hm htr)
+
+end htlc
+
+/-! ## oracle (finding F-gen-2: the feed-value history collapses on import) -/
+section oracle
+open Irismod.OracleGenesis Irismod.Proofs.OracleGenesis
+
+/-- the C12 statement for a feed's value history: a feed that ran through any sequence of
+batches (increasing batch counters, `latestHistory ≥ 1`) shows the same values after
+export → import. FALSE in the code. -/
+def OracleHistoryPreserved : Prop :=
+  ∀ (lh ctxBatch : Nat) (batches : List (Nat × Value)), 1 ≤ lh → batches.Pairwise (fun a b => a.1 < b.1) →
+    getFeedValues (importValues ctxBatch lh (exportValues (runValues lh [] batches))) =
+      getFeedValues (runValues lh [] batches)
+
+/-- **what import really does**: whatever was exported, the imported feed has exactly one value —
+the last one written, i.e. the last of the export list, i.e. the OLDEST stored value (the export
+lists newest first). -/
+theorem oracle_import_keeps_last_written (ctxBatch lh : Nat) (h : Hist) :
+    getFeedValues (importValues ctxBatch lh (exportValues h)) = (h.head?.map (·.2)).toList := by
+  rw [importValues_eq, getLast?_export]
+  cases h with
+  | nil => rfl
+  | cons e t => rfl
+
+/-- **negation by witness**: two batches, `latestHistory = 2` -/
+theorem oracle_roundtrip_fails : ¬ OracleHistoryPreserved := by
+  intro H
+  have := H 2 2 [(1, ⟨"1.0", 10⟩), (2, ⟨"2.0", 20⟩)] (by decide) (by simp)
+  revert this
+  decide
+
+/-- **the true part**: a feed with at most one stored value keeps it -/
+theorem oracle_roundtrip_partial (ctxBatch lh : Nat) (h : Hist) (hl : h.length ≤ 1) :
+    getFeedValues (importValues ctxBatch lh (exportValues h)) = getFeedValues h := by
+  rw [oracle_import_keeps_last_written]
+  match h, hl with
+  | [], _ => rfl
+  | [e], _ => rfl
+
+end oracle
 
 end Irismod.Props.C12
